@@ -73,6 +73,14 @@ Theorem C09_carried_state_is_reset :
 Proof. exact (conj carried_all_reset gen_policy_ok). Qed.
 Print Assumptions C09_carried_state_is_reset.
 
+(* what is carried goes where it belongs: the runner's field of each role is the RunnerState's field of that role (the
+   matcher state of the rule loop and the one of the Contains() searches are not mixed up, the operand stack is the eval
+   environment's) *)
+Theorem C09_carried_state_keeps_its_role :
+  carried_keys_ok gen_rr_literal = true /\ carried_keys_ok gen_fp_literal = true.
+Proof. exact carried_roles_kept. Qed.
+Print Assumptions C09_carried_state_keeps_its_role.
+
 (* captured variables never leak from one node, rule or file to the next through the Contains() sub-matcher: in every
    sequence of Contains() evaluations (whatever the earlier ones -- other rules, other nodes, other files, earlier runs on
    the same state, injected left-overs -- put into gogrepSubState.CapturePreset) each evaluation presets the sub-pattern
